@@ -961,13 +961,42 @@ def pattern_reg8(context, tree):
     return tree.value
 
 
-@arm_isa.pattern("reg", "I8TOI32(reg)", size=0)
-@arm_isa.pattern("reg", "U8TOI32(reg)", size=0)
-@arm_isa.pattern("reg", "I8TOU32(reg)", size=0)
-@arm_isa.pattern("reg", "U8TOU32(reg)", size=0)
-def pattern_i8toi32(self, tree, c0):
-    # TODO: do something?
-    # Sign extend for example?
+def extend_to_32(context, c0, bits, signed):
+    """Sign or zero extend the low bits of c0 into a fresh register.
+
+    The bits above a narrow value are unspecified (16 bit truncation is a
+    no-op, narrow arithmetic is done on full registers)."""
+    tmp = context.new_reg(ArmRegister)
+    d = context.new_reg(ArmRegister)
+    context.emit(Mov2(tmp, c0, ShiftLsl(32 - bits)))
+    if signed:
+        context.emit(Mov2(d, tmp, ShiftAsr(32 - bits)))
+    else:
+        context.emit(Mov2(d, tmp, ShiftLsr(32 - bits)))
+    return d
+
+
+@arm_isa.pattern("reg", "I8TOI32(reg)", size=8)
+@arm_isa.pattern("reg", "I8TOU32(reg)", size=8)
+@arm_isa.pattern("reg", "I8TOI16(reg)", size=8)
+@arm_isa.pattern("reg", "I8TOU16(reg)", size=8)
+def pattern_i8toi32(context, tree, c0):
+    return extend_to_32(context, c0, 8, True)
+
+
+@arm_isa.pattern("reg", "U8TOI32(reg)", size=8)
+@arm_isa.pattern("reg", "U8TOU32(reg)", size=8)
+@arm_isa.pattern("reg", "U8TOI16(reg)", size=8)
+@arm_isa.pattern("reg", "U8TOU16(reg)", size=8)
+def pattern_u8toi32(context, tree, c0):
+    return extend_to_32(context, c0, 8, False)
+
+
+@arm_isa.pattern("reg", "I16TOI8(reg)", size=0)
+@arm_isa.pattern("reg", "I16TOU8(reg)", size=0)
+@arm_isa.pattern("reg", "U16TOI8(reg)", size=0)
+@arm_isa.pattern("reg", "U16TOU8(reg)", size=0)
+def pattern_i16toi8(context, tree, c0):
     return c0
 
 
@@ -991,19 +1020,16 @@ def pattern_i32toi16(context, tree, c0):
     return c0
 
 
-@arm_isa.pattern("reg", "I16TOI32(reg)", size=4)
+@arm_isa.pattern("reg", "I16TOI32(reg)", size=8)
+@arm_isa.pattern("reg", "I16TOU32(reg)", size=8)
 def pattern_i16toi32(context, tree, c0):
-    # d2 = context.new_reg(ArmRegister)
-    # TODO:
-    # context.emit(Sxth(d2, c0))
-    return c0
+    return extend_to_32(context, c0, 16, True)
 
 
-@arm_isa.pattern("reg", "I16TOU32(reg)", size=4)
-@arm_isa.pattern("reg", "U16TOI32(reg)", size=4)
-@arm_isa.pattern("reg", "U16TOU32(reg)", size=4)
+@arm_isa.pattern("reg", "U16TOI32(reg)", size=8)
+@arm_isa.pattern("reg", "U16TOU32(reg)", size=8)
 def pattern_i16tou32(context, tree, c0):
-    return c0
+    return extend_to_32(context, c0, 16, False)
 
 
 @arm_isa.pattern("reg", "CONSTI32", size=8)
@@ -1058,6 +1084,10 @@ def pattern_const8_1(context, tree):
 @arm_isa.pattern("stm", "CJMPI8(reg, reg)", size=2)
 def pattern_cjmp_signed(context, tree, c0, c1):
     op, yes_label, no_label = tree.value
+    bits = {"CJMPI8": 8, "CJMPI16": 16}.get(tree.name)
+    if bits:
+        c0 = extend_to_32(context, c0, bits, True)
+        c1 = extend_to_32(context, c1, bits, True)
     opnames = {"<": Blt, ">": Bgt, "==": Beq, "!=": Bne, "<=": Ble, ">=": Bge}
     Bop = opnames[op]
     context.emit(Cmp2(c0, c1, NoShift()))
@@ -1071,6 +1101,10 @@ def pattern_cjmp_signed(context, tree, c0, c1):
 @arm_isa.pattern("stm", "CJMPU8(reg, reg)", size=2)
 def pattern_cjmp_unsigned(context, tree, c0, c1):
     op, yes_label, no_label = tree.value
+    bits = {"CJMPU8": 8, "CJMPU16": 16}.get(tree.name)
+    if bits:
+        c0 = extend_to_32(context, c0, bits, False)
+        c1 = extend_to_32(context, c1, bits, False)
     opnames = {
         "<": (Blo, False),
         ">": (Blo, True),
@@ -1158,6 +1192,7 @@ def pattern_sub16(context, tree, c0, c1):
 
 
 @arm_isa.pattern("reg", "SUBI8(reg, reg)", size=4)
+@arm_isa.pattern("reg", "SUBU8(reg, reg)", size=4)
 def pattern_sub8(context, tree, c0, c1):
     # TODO: temporary fix this with an 32 bits sub
     d = context.new_reg(ArmRegister)
@@ -1275,32 +1310,28 @@ def pattern_shr_u32(context, tree, c0, c1):
 @arm_isa.pattern("reg", "SHRI16(reg, reg)", size=4)
 def pattern_shr_i16(context, tree, c0, c1):
     d = context.new_reg(ArmRegister)
-    # TODO: mask with 0xffff at some point?
-    context.emit(Asr(d, c0, c1))
+    context.emit(Asr(d, extend_to_32(context, c0, 16, True), c1))
     return d
 
 
 @arm_isa.pattern("reg", "SHRU16(reg, reg)", size=4)
 def pattern_shr_u16(context, tree, c0, c1):
     d = context.new_reg(ArmRegister)
-    # TODO: mask with 0xffff at some point?
-    context.emit(Lsr1(d, c0, c1))
+    context.emit(Lsr1(d, extend_to_32(context, c0, 16, False), c1))
     return d
 
 
 @arm_isa.pattern("reg", "SHRI8(reg, reg)", size=4)
 def pattern_shr8(context, tree, c0, c1):
     d = context.new_reg(ArmRegister)
-    # TODO: mask with 0xffff at some point?
-    context.emit(Asr(d, c0, c1))
+    context.emit(Asr(d, extend_to_32(context, c0, 8, True), c1))
     return d
 
 
 @arm_isa.pattern("reg", "SHRU8(reg, reg)", size=4)
 def pattern_shr_u8(context, tree, c0, c1):
     d = context.new_reg(ArmRegister)
-    # TODO: mask with 0xffff at some point?
-    context.emit(Lsr1(d, c0, c1))
+    context.emit(Lsr1(d, extend_to_32(context, c0, 8, False), c1))
     return d
 
 
@@ -1332,6 +1363,10 @@ def pattern_shl8(context, tree, c0, c1):
 
 @arm_isa.pattern("reg", "MULI32(reg, reg)", size=4)
 @arm_isa.pattern("reg", "MULU32(reg, reg)", size=4)
+@arm_isa.pattern("reg", "MULI16(reg, reg)", size=4)
+@arm_isa.pattern("reg", "MULU16(reg, reg)", size=4)
+@arm_isa.pattern("reg", "MULI8(reg, reg)", size=4)
+@arm_isa.pattern("reg", "MULU8(reg, reg)", size=4)
 def pattern_mul32(context, tree, c0, c1):
     d = context.new_reg(ArmRegister)
     context.emit(Mul1(d, c0, c1))
